@@ -575,6 +575,32 @@ def r07_12(run, model):
                    "grow[((T,T),(T,T))], … until memory is exhausted")
 
 
+def r07_13(run, model):
+    run.rule("R07.13", "an instance is keyed by the bindings of its own type parameters only: the substitution handed to ensure_instance in "
+                       "mono_expr is built from nothing but this use's unification - it does not start from the substitution of the instance "
+                       "being generated (type parameter names of caller and callee share no name space)")
+    f = model.fn("mono_expr", MONO)
+    params = [p["pat"]["name"] for p in f.params() if not p["self"] and p["pat"]["k"] == "PIdent"]
+    outer = [p for p, q in zip(params, f.params()) if "Subst" in (q["ty"] or "")]
+    if not outer:
+        raise AnalysisIncomplete("mono_expr: substitution parameter not found")
+    n = 0
+    for c in S.walk(f.body):
+        if c["k"] != "MethodCall" or c["method"] != "ensure_instance" or len(c["args"]) < 2:
+            continue
+        n += 1
+        a = c["args"][1]
+        chain = [S.norm_ws(run.facts.text(MONO, a["sp"]))]
+        for i in S.idents(a):
+            chain += _origin_chain(run, f, MONO, c, i, depth=2)
+        leak = [t for t in chain if re.search(r"^(&?mut)?" + outer[0] + r"(\.clone\(\))?$|=" + outer[0] + r"\.clone\(\)", t) or t in (outer[0], outer[0] + ".clone()")]
+        run.ob("R07.13", f"mono_expr|instance #{n} is keyed by its own bindings", not leak, site(MONO, c["sp"]),
+               f"substitution argument: {' <- '.join(chain)[:120]}",
+               witness="fn outer[T](..) { pair_of(1) } with pair_of[U]: the instance is requested as pair_of[T=int32, U=int32] from outer and as "
+                       "pair_of[U=int32] from main - generated twice; dup[T] called at (T, T) inside nest[T] panics `conflicting bindings for T`")
+    run.floor("ensure_instance calls in mono_expr", n, 2)
+
+
 def run(run, model):
     run.try_rule(r07_1, model)
     run.try_rule(r07_2, model, None, "C07")
@@ -587,6 +613,10 @@ def run(run, model):
     run.try_rule(r07_6, model)
     run.try_rule(r07_11, model)
     run.try_rule(r07_12, model)
+    run.try_rule(r07_13, model)
+    from rules import c19 as _c19
+    run.rule("R07.14", "two instances of a generic enum never share a Go type name for a variant (shared with C19 R19.8: the clash count ranges over the specialised enums that are emitted)")
+    run.try_rule(_c19.r19_8, model)
     from rules import c03
     run.rule("R07.10", "no residue of type parameters: a type parameter that can never be inferred is rejected where the function is declared (shared with C03 R03.17)")
     run.try_rule(c03.r03_17, model)
